@@ -1465,3 +1465,7 @@ where
         Ok(())
     }
 }
+
+#[cfg(kani)]
+#[path = "/verif/kani/aranya-policy-vm/machine.rs"]
+mod verif_kani;
